@@ -24,6 +24,12 @@ CHECKS = {
  'C20': dict(level='exploration', tech='runtime monitor + sanitizer: 60-digit mpmath references and C99 Annex G tables against the real compiled helpers; UBSan+ASan build of the generated C under the same workload',
              text='Stratified random exploration of the full exponent range (subnormal..overflow, axes, branch cuts), integer powers -200..200, all special-value pairs, all accepted double-factorial arguments; errors measured norm-wise in ulp of the exact value.',
              note='pow budgets are condition-number based (assumption listed in evidence). Seven open known findings, all in .pyx files that cannot be rebuilt here.', ref='4/C20'),
+ 'C10': dict(level='exploration', tech='runtime monitor: recorder on the functional mode-sum API asserting six identities per call; oracle for grouping = independent un-grouped straight sum over every (l,m,p,q) in the real tables with published-compliance Love numbers',
+             text='Randomised exploration over n, spin/n in [-3,3] incl. exact resonances and synchronous states, e<=0.5, obliquity, l_max 2..7, truncation levels, seven rheologies incl. CPL/CTL, scalar and array inputs, single and dual bodies.',
+             note='I4 (non-negativity) is asserted where all truncated table weights are non-negative (operational validity range); identities to 1e-10..1e-11 of the sum of |terms|.', ref='4/C10'),
+ 'C11': dict(level='exploration', tech='runtime monitor: conservation checker (energy, angular momentum) on the rates returned by the single- and dual-body functional API',
+             text='Randomised exploration over the same state space as C10 with extra weight on e=0, resonances and dual dissipation; balances evaluated from the returned rates with independently coded orbital energy / angular momentum.',
+             note='Balances to 1e-10 (energy) and 1e-9 (angular momentum) of the largest term; rotational energy uses the moment of inertia passed to the API.', ref='4/C11'),
 }
 NA = []
 def main():
